@@ -179,6 +179,11 @@ Definition cdef_next (fl : list (N * kind)) (k : nat) (sc : list N) (s : Resolve
       | Some K => if fresh_id pv sv bound fl sc x then frag_stmts pv sv bound ((x, K) :: fl) k sc ss else None
       | None => None
       end
+  | SAssignment Nop (ERead h _) v _ =>
+      match fun_kind fl h, frag_fexpr pv sv bound fl k sc v with
+      | Some (KF a r), Some K => if kind_eqb K (KF a r) then frag_stmts pv sv bound fl k sc ss else None
+      | _, _ => None
+      end
   | _ => None
   end.
 
@@ -188,11 +193,19 @@ Lemma frag_stmts_plain fl k sc s ss :
   match frag_stmt pv sv bound fl k sc s with Some sc' => frag_stmts pv sv bound fl k sc' ss | None => cdef_next fl k sc s ss end.
 Proof. destruct s; try reflexivity. destruct value; try reflexivity. discriminate. Qed.
 Lemma cdef_next_inv fl k sc s ss r : cdef_next fl k sc s ss = Some r ->
-  exists nm x kd t v sp K, s = SDefinition nm x kd t v sp /\ frag_fexpr pv sv bound ((x, KP) :: fl) k sc v = Some K /\
-                           fresh_id pv sv bound fl sc x = true /\ frag_stmts pv sv bound ((x, K) :: fl) k sc ss = Some r.
+  (exists nm x kd t v sp K, s = SDefinition nm x kd t v sp /\ frag_fexpr pv sv bound ((x, KP) :: fl) k sc v = Some K /\
+                            fresh_id pv sv bound fl sc x = true /\ frag_stmts pv sv bound ((x, K) :: fl) k sc ss = Some r) \/
+  (exists h hsp v sp a rr, s = SAssignment Nop (ERead h hsp) v sp /\ fun_kind fl h = Some (KF a rr) /\
+                           frag_fexpr pv sv bound fl k sc v = Some (KF a rr) /\ frag_stmts pv sv bound fl k sc ss = Some r).
 Proof.
-  unfold cdef_next. destruct s; try discriminate. destruct (frag_fexpr pv sv bound ((var, KP) :: fl) k sc value) as [K|] eqn:Hf; [|discriminate].
-  destruct (fresh_id pv sv bound fl sc var) eqn:Hfr; [|discriminate]. intros H. do 7 eexists. eauto.
+  unfold cdef_next. destruct s; try discriminate.
+  - destruct op; try discriminate. destruct target; try discriminate.
+    destruct (fun_kind fl var) as [[|a rr]|] eqn:Hk; try discriminate.
+    destruct (frag_fexpr pv sv bound fl k sc value) as [K|] eqn:Hf; [|discriminate].
+    destruct (kind_eqb K (KF a rr)) eqn:He; [|discriminate]. apply kind_eqb_eq in He. subst K.
+    intros H. right. do 6 eexists. eauto.
+  - destruct (frag_fexpr pv sv bound ((var, KP) :: fl) k sc value) as [K|] eqn:Hf; [|discriminate].
+    destruct (fresh_id pv sv bound fl sc var) eqn:Hfr; [|discriminate]. intros H. left. do 7 eexists. eauto.
 Qed.
 Lemma frag_stmts_nil fl k sc : frag_stmts pv sv bound fl (S k) sc [] = Some (sc, fl).
 Proof. reflexivity. Qed.
@@ -250,9 +263,11 @@ Proof.
     + rewrite (frag_stmts_plain _ _ _ _ _ Hf) in H. destruct (frag_stmt pv sv bound fl k sc s) as [sc0|] eqn:Hs.
       * destruct (IH _ _ _ _ _ H) as (sc1 & fl1 & k' & A & B). exists sc1, fl1, k'. split; [|exact B].
         rewrite (frag_stmts_plain _ _ _ _ _ Hf), Hs. exact A.
-      * destruct (cdef_next_inv _ _ _ _ _ _ H) as (nm & x & kd & t & v & sp & K & -> & Hfe & Hfr & Hrest).
-        destruct (IH _ _ _ _ _ Hrest) as (sc1 & fl1 & k' & A & B). exists sc1, fl1, k'. split; [|exact B].
-        rewrite (frag_stmts_plain _ _ _ _ _ Hf), Hs. unfold cdef_next. rewrite Hfe, Hfr. exact A.
+      * destruct (cdef_next_inv _ _ _ _ _ _ H) as [(nm & x & kd & t & v & sp & K & -> & Hfe & Hfr & Hrest)|(h & hsp & v & sp & a0 & rr & -> & Hk & Hfe & Hrest)].
+        -- destruct (IH _ _ _ _ _ Hrest) as (sc1 & fl1 & k' & A & B). exists sc1, fl1, k'. split; [|exact B].
+           rewrite (frag_stmts_plain _ _ _ _ _ Hf), Hs. unfold cdef_next. rewrite Hfe, Hfr. exact A.
+        -- destruct (IH _ _ _ _ _ Hrest) as (sc1 & fl1 & k' & A & B). exists sc1, fl1, k'. split; [|exact B].
+           rewrite (frag_stmts_plain _ _ _ _ _ Hf), Hs. unfold cdef_next. rewrite Hk, Hfe. rewrite kind_eqb_refl. exact A.
 Qed.
 
 Lemma frag_stmts_flincl : forall ss k fl sc sc' flr,
@@ -265,8 +280,9 @@ Proof.
       match type of H with (if ?c then _ else _) = _ => destruct c eqn:Hc; [|discriminate H] end.
       apply IH in H. intros x Hx. apply H. right. exact Hx.
     + rewrite (frag_stmts_plain _ _ _ _ _ Hf) in H. destruct (frag_stmt pv sv bound fl k sc s) as [sc0|] eqn:Hs; [eapply IH; exact H|].
-      destruct (cdef_next_inv _ _ _ _ _ _ H) as (nm & x & kd & t & v & sp & K & -> & Hfe & Hfr & Hrest).
-      apply IH in Hrest. intros y Hy. apply Hrest. right. exact Hy.
+      destruct (cdef_next_inv _ _ _ _ _ _ H) as [(nm & x & kd & t & v & sp & K & -> & Hfe & Hfr & Hrest)|(h & hsp & v & sp & a0 & rr & -> & Hk & Hfe & Hrest)].
+      * apply IH in Hrest. intros y Hy. apply Hrest. right. exact Hy.
+      * eapply IH; exact Hrest.
 Qed.
 
 Lemma frag_stmts_fnames : forall ss k fl sc sc' flr,
@@ -279,8 +295,9 @@ Proof.
       match type of H with (if ?c then _ else _) = _ => destruct c eqn:Hc; [|discriminate H] end.
       apply IH in H. intros x Hx. apply H. right. exact Hx.
     + rewrite (frag_stmts_plain _ _ _ _ _ Hf) in H. destruct (frag_stmt pv sv bound fl k sc s) as [sc0|] eqn:Hs; [eapply IH; exact H|].
-      destruct (cdef_next_inv _ _ _ _ _ _ H) as (nm & x & kd & t & v & sp & K & -> & Hfe & Hfr & Hrest).
-      apply IH in Hrest. intros y Hy. apply Hrest. right. exact Hy.
+      destruct (cdef_next_inv _ _ _ _ _ _ H) as [(nm & x & kd & t & v & sp & K & -> & Hfe & Hfr & Hrest)|(h & hsp & v & sp & a0 & rr & -> & Hk & Hfe & Hrest)].
+      * apply IH in Hrest. intros y Hy. apply Hrest. right. exact Hy.
+      * eapply IH; exact Hrest.
 Qed.
 
 End Eq.
@@ -693,9 +710,10 @@ Proof. induction l as [|a l IH]; cbn; [reflexivity | rewrite IH; reflexivity]. Q
 Lemma L_stmts_of g :
   (forall fl, L_stmt pv sv bound u fl g) -> (forall fl g2, g = S (S g2) -> L_fb pv sv bound u fl g2) ->
   (forall fl g2, g = S (S g2) -> L_fexpr pv sv bound u fl g2) ->
+  (forall fl g1, g = S g1 -> L_fexpr pv sv bound u fl g1) ->
   forall fl, L_stmts pv sv bound u fl g.
 Proof.
-  intros IH IHF IHX fl k ss. revert k fl. induction ss as [|s ss IHss]; intros k fl ctx c cs c' sc scr l Hm Hf.
+  intros IH IHF IHX IHX1 fl k ss. revert k fl. induction ss as [|s ss IHss]; intros k fl ctx c cs c' sc scr l Hm Hf.
   - destruct (mapM_nil_ok _ _ _ _ Hm) as [-> ->]. eexists _, _. apply cshape_nil.
   - destruct k as [|k]; [discriminate|].
     apply mapM_cons_ok in Hm as (y & c1 & ys & Hy & Hys & ->). cbn [concat].
@@ -714,7 +732,18 @@ Proof.
         destruct (IHss k fl ctx c1 ys c' sc1 scr l1 Hys Hf) as (b2 & l2 & Hs2).
         eexists _, _. eapply cshape_app; eassumption.
       * (* x :: <function value> *)
-        destruct (cdef_next_inv _ _ _ _ _ _ _ _ _ Hf) as (nm & x & kd & t & v & sp & K & -> & Hfe & Hfr & Hrest).
+        destruct (cdef_next_inv _ _ _ _ _ _ _ _ _ Hf) as [(nm & x & kd & t & v & sp & K & -> & Hfe & Hfr & Hrest)|(h & hsp & v & sp & a0 & rr & -> & Hk & Hfe & Hrest)].
+        2: { (* h = <function value> *)
+          destruct g as [|[|g2]]; [cbn in Hy; discriminate Hy | cbn in Hy; discriminate Hy |]. cbn [statement] in Hy.
+          mon Hy. fresh_all. apply ret_ok in Hm0 as [<- <-]. cbn beta iota in Hy. mon Hy. apply ret_ok in Hm0 as [<- <-].
+          destruct a as [code_v rv]. cbn [fst snd app] in *.
+          destruct (IHX1 fl (S g2) eq_refl k v _ ctx (c + 1) code_v rv _ sc l Hm Hfe) as (b1 & l1 & Hs1 & ? & ?).
+          destruct (IHss k _ ctx _ ys c' sc scr l1 Hys Hrest) as (b2 & l2 & Hs2).
+          pose proof Hs1 as (_ & ? & _).
+          eexists _, _. eapply cshape_app; [|exact Hs2].
+          eapply cshape_app'; [eapply cshape_widen; [exact Hs1 | lia | lia]|].
+          eapply cshape_cons'; [apply (cshape_plain u l1 (ICopy c rv) c _); [lia | reflexivity | reflexivity | apply used_plain]|].
+          apply (cshape_plain u l1 (IAssign h c) c _); [lia | reflexivity | reflexivity | apply used_plain]. }
         assert (Hnf : is_function v = false) by (destruct v; try reflexivity; discriminate Hfd).
         destruct g as [|[|g2]]; [cbn in Hy; discriminate Hy | cbn in Hy; discriminate Hy |]. cbn [statement] in Hy.
         rewrite (definition_nonfun g2 x v ctx Hnf) in Hy. mon Hy. destruct a as [code_v rv]. cbn [fst snd] in *.
@@ -866,7 +895,7 @@ Proof.
   induction g as [|g IH]; intros g' Hg.
   - assert (g' = O) by lia. subst.
     assert (Hs0 : forall fl, L_stmts pv sv bound u fl O).
-    { apply L_stmts_of; [intros fl; apply L_stmt_zero | intros fl g2 H; discriminate H | intros fl g2 H; discriminate H]. }
+    { apply L_stmts_of; [intros fl; apply L_stmt_zero | intros fl g2 H; discriminate H | intros fl g2 H; discriminate H | intros fl g2 H; discriminate H]. }
     intros fl. split; [apply L_expr_zero|]. split; [apply L_stmt_zero|]. split; [apply Hs0|].
     split; [|apply L_fexpr_zero]. apply L_fb_of; [intros g' Hg' fl'; assert (g' = O) by lia; subst; apply L_expr_zero | exact Hs0 | intros g' Hg' fl'; assert (g' = O) by lia; subst; apply L_fexpr_zero].
   - destruct (Nat.eq_dec g' (S g)) as [->|Hne]; [|apply IH; lia].
@@ -878,7 +907,7 @@ Proof.
     assert (Hst1 : forall fl, L_stmt pv sv bound u fl (S g)) by (intros fl; apply L_stmt_succ; [intros g'' H; apply He; exact H | apply Hs]).
     assert (Hx1 : forall fl, L_fexpr pv sv bound u fl (S g)) by (intros fl; apply L_fexpr_succ; [apply He; lia | apply Hx | exact Hb]).
     assert (Hss1 : forall fl, L_stmts pv sv bound u fl (S g)).
-    { apply L_stmts_of; [exact Hst1 | intros fl g2 Heq; apply (IH g2); lia | intros fl g2 Heq; apply (IH g2); lia]. }
+    { apply L_stmts_of; [exact Hst1 | intros fl g2 Heq; apply (IH g2); lia | intros fl g2 Heq; apply (IH g2); lia | intros fl g1 Heq; apply (IH g1); lia]. }
     intros fl. split; [apply He1|]. split; [apply Hst1|]. split; [apply Hss1|]. split; [|apply Hx1]. apply L_fb_of; try assumption.
     + intros g' Hg' fl'. destruct (Nat.eq_dec g' (S g)) as [->|Hne']; [apply He1 | apply He; lia].
     + intros g' Hg' fl'. destruct (Nat.eq_dec g' (S g)) as [->|Hne']; [apply Hx1 | apply (IH g'); lia].
